@@ -136,6 +136,16 @@ def simple_programs():
                  ['e', 'u']):
         yield 'raise', [['raise', tref, [T('m')] + BODY]]
     yield 'comment', [T('a'), ['comment', [T('c')] + BODY], T('b')]
+    # literal text that looks like the beginning of an entity reference,
+    # before, between and after real tags (with and without a later ';')
+    for frag in ('AT&dtml-T ', '&dtml.a b', 'x &dtml- y', '&dtml-', '&dtml'):
+        for tail in ('', ' ; ', ';'):
+            yield 'neartag', [T(frag), ['var', N('x'), []], T(tail),
+                              ['var', N('y'), [['upper', None]]], T(frag)]
+            yield 'neartag', [T(frag), ['if', [[N('x'), [T('t' + frag)]]],
+                                        [T('e')]], T(tail)]
+            yield 'neartag', [['in', N('seq'), [T(frag), ['var', N('k'), []],
+                                                T(tail)], None, []], T(frag)]
 
 
 BLOCK_WRAPPERS = [
